@@ -59,8 +59,9 @@ fn one_run(bi: usize, ops: &[Value], rounds: u8, tr: &mut Trace) -> RunOut {
     let b = Matter::new(&TEST_DEV_DET, TEST_DEV_COMM, &TEST_DEV_ATT, 5540);
     plant(&a, NODE_A, NODE_B, 1, 1, 1);
     plant(&b, NODE_B, NODE_A, 0, 1, 1);
-    // idle sessions with other peers (300 + k) on both nodes: a schedule may have those peers close them at any time
-    for k in 0..4u16 {
+    // idle sessions with other peers (300 + k) on both nodes, so that the session table is almost full: every new
+    // unsecured session a schedule provokes (a stray first message of a handshake) then evicts one of them
+    for k in 0..14u16 {
         plant(&a, NODE_A, 300 + k as u64, 1, 40 + k, 40 + k);
         plant(&b, NODE_B, 300 + k as u64, 0, 40 + k, 40 + k);
     }
@@ -153,6 +154,7 @@ fn one_run(bi: usize, ops: &[Value], rounds: u8, tr: &mut Trace) -> RunOut {
         closes: Vec<(u64, u64)>,
     }
     let mut n_closed = [0u16; 2];
+    let (a_ref, b_ref) = (&a, &b);
     let mut auto: Option<Auto> = None;
     let mut ordinal = 0u64;
     let mut queue: Vec<(u64, crate::sim::Dgram)> = Vec::new();
@@ -167,6 +169,9 @@ fn one_run(bi: usize, ops: &[Value], rounds: u8, tr: &mut Trace) -> RunOut {
                 let d = &n.tap[tapped];
                 tapped += 1;
                 let t = dec.decode(d);
+                if t.sess_id != 1 {
+                    continue; // not the session under test (unsecured answers to strays, evicted sessions being closed)
+                }
                 if !ctrs[d.src].contains(&t.ctr) {
                     ctrs[d.src].push(t.ctr);
                 }
@@ -284,35 +289,39 @@ fn one_run(bi: usize, ops: &[Value], rounds: u8, tr: &mut Trace) -> RunOut {
             }
         }
         let now = sim::now_ms();
-        // another peer closes one of the idle sessions of a node
+        // a stray unsecured first message of a handshake from an unknown node reaches a node: it needs a session slot, and
+        // with the table full the node evicts one of its idle sessions (and tells everybody who waits on the transport)
         if let Some(a) = auto.as_mut() {
             if let Some(pos) = a.closes.iter().position(|c| c.1 <= now) {
                 let (node, _) = a.closes.remove(pos);
                 let node = node as usize % 2;
+                n_closed[node] += 1;
                 let k = n_closed[node];
-                if k < 4 {
-                    n_closed[node] += 1;
-                    let mut hdr = rs_matter::transport::packet::PacketHdr::new();
-                    hdr.plain.sess_id = 40 + k;
-                    hdr.plain.ctr = 5000 + k as u32;
-                    hdr.proto.exch_id = 700 + k;
-                    hdr.proto.proto_id = 0;
-                    hdr.proto.proto_opcode = 0x40;
-                    hdr.proto.set_initiator();
-                    let mut buf = vec![0u8; 128];
-                    let mut wb = rs_matter::utils::storage::WriteBuf::new(&mut buf);
-                    wb.reserve(rs_matter::transport::packet::PacketHdr::HDR_RESERVE).unwrap();
-                    wb.append(&[0, 0, 0, 0, 0, 0, 3, 0]).unwrap();
-                    hdr.encode(test_only_crypto(), Some(CanonAeadKey::new().reference()), 300 + k as u64, &mut wb).unwrap();
-                    tr.ev(json!({"ev": "OtherClosed", "n": nm(node), "k": k, "t": now}));
-                    return Step::Inject { src: 1 - node, dst: node, data: wb.as_slice().to_vec() };
-                }
+                let mut hdr = rs_matter::transport::packet::PacketHdr::new();
+                hdr.plain.sess_id = 0;
+                hdr.plain.ctr = 9000 + k as u32;
+                hdr.plain.set_src_nodeid(Some(0x7700 + 16 * node as u64 + k as u64));
+                hdr.proto.exch_id = 700 + k;
+                hdr.proto.proto_id = 0;
+                hdr.proto.proto_opcode = 0x20;
+                hdr.proto.set_initiator();
+                let mut buf = vec![0u8; 128];
+                let mut wb = rs_matter::utils::storage::WriteBuf::new(&mut buf);
+                wb.reserve(rs_matter::transport::packet::PacketHdr::HDR_RESERVE).unwrap();
+                wb.append(&[0x15, 0x30, 0x01, 0x03, 1, 2, 3, 0x18]).unwrap();
+                hdr.encode(test_only_crypto(), None, 0, &mut wb).unwrap();
+                let sessions = [&a_ref, &b_ref][node].with_state(|st| st.verif_snapshot().sessions.sessions.len());
+                tr.ev(json!({"ev": "OtherClosed", "n": nm(node), "k": k, "sessions_before": sessions, "t": now}));
+                return Step::Inject { src: 1 - node, dst: node, data: wb.as_slice().to_vec() };
             }
         }
         if let Some(pos) = queue.iter().position(|q| q.0 <= now) {
             let (_, d) = queue.remove(pos);
             let c = u32::from_le_bytes([d.data[4], d.data[5], d.data[6], d.data[7]]);
-            tr.ev(json!({"ev": "Dlv", "from": nm(d.src), "ctr": c, "t": sim::now_ms()}));
+            // (datagrams of other sessions - answers to strays, sessions being closed - travel unrecorded)
+            if u16::from_le_bytes([d.data[1], d.data[2]]) == 1 {
+                tr.ev(json!({"ev": "Dlv", "from": nm(d.src), "ctr": c, "t": sim::now_ms()}));
+            }
             return Step::Inject { src: d.src, dst: d.dst, data: d.data };
         }
         let next_rel = queue.iter().map(|q| q.0).chain(auto.iter().flat_map(|a| a.closes.iter().map(|c| c.1))).min();
